@@ -3,6 +3,25 @@
 import json, os
 VERIF = os.path.normpath(os.path.join(os.path.dirname(os.path.abspath(__file__)), ".."))
 CLAIMED = {
+ "C11": dict(
+   text="Decided mainly by correspondence, with the state-machine theorem of failure atomicity (a raising add/subtract/remove leaves the state unchanged) machine-checked in Coq: random interleavings (<=30 steps) of calculations, read-outs, series/plots/CSV writing, operators and failing mutating calls on several live inventories of both classes; "
+        "after EVERY step every live object and the shared data set are fingerprinted (array bytes, CSR triplets, srepr of SymPy objects, instance attributes), DEFAULTDATA == fresh load, and a probe calculation must be bit-identical to a fresh interpreter. Source-text ties of every inventory method (any edit breaks the tie).",
+   note="Trusted: fingerprint harness; Coq kernel for step_atomic. Bit-level immutability of Python objects is runtime behaviour the functional model cannot exhibit: labelled partial; no verified effect analysis of the Python source.",
+   technique="Coq proof of failure atomicity on the state machine + fingerprint history correspondence",
+   ref="DESIGN.md section 4 C11"),
+ "C16": dict(
+   text="Machine-checked proof (Coq) about a transcription of the breadth-first diagram construction: for EVERY data-set view and root, no two nodes share a position (invariant of the loop, by induction); for the shipped data the whole property (node set = reachable set + one node per fission branch, one edge per link with mode and branching fraction, row = breadth-first depth computed independently, positions distinct) is a kernel-computed certificate over ALL 1512 roots. "
+        "The extracted model and the implementation produce identical graphs (nodes, attributes, labels, edges, order) for all 1512 roots.",
+   note="Trusted: Coq kernel+vm_compute; translators for data and label tables; hand model tied by recorded source text + all-roots identity. networkx/matplotlib drawing outside the model.",
+   technique="Coq proof (loop invariant + exhaustive kernel certificate) + all-roots correspondence via extraction",
+   ref="DESIGN.md section 4 C16"),
+ "C17": dict(
+   text="Machine-checked proof (Coq) about the model of __eq__/__ne__/__hash__: on every value domain where amount equality is an equivalence, inventory equality is reflexive, symmetric, transitive, holds exactly when both denote the same nuclide->amount map on equal data sets, any difference is detected, != is the negation, unrelated types give False/True, equal nuclides hash equal, data-set equality is an equivalence. "
+        "Pairwise/triple correspondence over pools of nuclides, inventories (both classes, numeric types, spellings) and data sets, before and after calculations.",
+   note="Trusted: Coq kernel (no axioms); hand model tied by recorded source text. Mixed float/SymPy amounts break transitivity and spec-equality in the real code (known findings F9a/F9b).",
+   technique="Coq proof (equivalence + characterisation of dict equality) + pairwise/triple correspondence",
+   ref="DESIGN.md section 4 C17"),
+
  "C01": dict(
    text="Machine-checked proof (Coq), for every data set whose kernel-computed certificate holds: the closed form C.exp(-Lt).C^-1.N0 is the unique solution of the decay ODE system assembled from half-lives, branching fractions and progeny (all real t, all N0); what the code computes "
         "(E filled only at the indices read off the sparsity pattern of C) equals that closed form, nuclides outside the reported set hold exactly zero (pattern certificate: equal patterns, transitively closed, = reachability closure); the reference values of the correspondence are PROVED interval enclosures (coq-interval) of the closed form. "
